@@ -67,7 +67,7 @@ def _pure_name_expr(node, self_name):
 def prepass(fdef, tree, spec, notes):
     import py2lean_heap
     cls = spec.get('cls') or {}
-    keys = set(spec.get('key_locals', ()))
+    keys = set(spec.get('key_locals') or ())
     new = py2lean_heap._copy_fdef(fdef)
     self_name = new.args.args[0].arg if new.args.args else None
     state = cls.get('state', {})
@@ -157,6 +157,20 @@ def prepass(fdef, tree, spec, notes):
         def unyield(stmts):
             out = []
             for st in stmts:
+                yv = st.value.value if isinstance(st, ast.Expr) and isinstance(st.value, ast.Yield) else None
+                kinds = spec.get('yield_unbox')
+                if isinstance(yv, ast.Tuple) and isinstance(kinds, (list, tuple)) and len(kinds) == len(yv.elts) \
+                        and all(_const_chain_root(e) is not None for e in yv.elts) and '_y2' not in scope:
+                    # `yield curr[KEY], curr[VALUE]`: one checked unboxing per item, left to right
+                    for i, (e, kind) in enumerate(zip(list(yv.elts), kinds)):
+                        call = ast.copy_location(ast.Call(func=ast.Name(id=OP + 'unbox_' + kind, ctx=ast.Load()),
+                                                          args=[e], keywords=[]), st)
+                        out.append(ast.copy_location(ast.Assign(
+                            targets=[ast.copy_location(ast.Name(id='_y%d' % (i + 1), ctx=ast.Store()), st)], value=call), st))
+                        yv.elts[i] = ast.copy_location(ast.Name(id='_y%d' % (i + 1), ctx=ast.Load()), e)
+                    notes.add('K6 checked unboxing of a yielded pair')
+                    out.append(st)
+                    continue
                 if isinstance(st, ast.Expr) and isinstance(st.value, ast.Yield) and st.value.value is not None \
                         and _const_chain_root(st.value.value) is not None:
                     call = ast.copy_location(ast.Call(func=ast.Name(id=OP + 'unbox_key', ctx=ast.Load()),
@@ -224,6 +238,11 @@ def translate_op(ex, node, expected):
         if lt != ('List', K) or et != K:
             raise Unsupported(node, 'a local set of something else than keys')
         return '(%s ++ [%s])' % (l, e), ('List', K)
+    if name == 'unbox_val' and len(node.args) == 1 and not node.keywords and fn.raises and fn.heap:
+        e, t = ex.expr(node.args[0], py2lean.VAL)
+        if t != py2lean.VAL:
+            raise Unsupported(node, 'checked unboxing of a statically typed value')
+        return ex.partial('PyRtC01.unboxVal? %s' % py2lean.FnTranslator._atom(e), node), ('Var', py2lean.HEAP_TP[1])
     if name != 'unbox_key' or node.keywords or len(node.args) != 1:
         raise Unsupported(node, 'unknown operation %s' % name)
     if not fn.raises or not fn.heap:
@@ -270,7 +289,7 @@ def _fam(method):
                     case.update(k=key, default=rng.choice([None, None, -1, 5]))
                 elif method == 'getitem':
                     case.update(k=key)
-                elif method == 'iterkeys':
+                elif method in ('iterkeys', 'iteritems'):
                     case.update(multi=rng.random() < 0.5)
                 elif method == 'getlist':
                     case.update(k=key, default=rng.choice([None, None, [7], []]))
@@ -279,4 +298,5 @@ def _fam(method):
 
 
 FAMILIES = {'OMD.poplast': _fam('poplast'), 'OMD.pop': _fam('pop'), 'OMD.popitem': _fam('popitem'),
-            'OMD.getitem': _fam('getitem'), 'OMD.getlist': _fam('getlist'), 'OMD.iterkeys': _fam('iterkeys')}
+            'OMD.getitem': _fam('getitem'), 'OMD.getlist': _fam('getlist'), 'OMD.iterkeys': _fam('iterkeys'),
+            'OMD.iteritems': _fam('iteritems')}
